@@ -219,6 +219,54 @@ class C05(Prop):
             text = C.unhex(f[1]).strip()[1:].strip()  # drop the leading value `1`
             if f[2] == "OK" and f[5] != "?":
                 out.append(Case("unit " + C.hexs(text), "unitexpr", text, expect=f[5]))
+        # the same expressions with the blanks moved around: one-sided blanks next to `*` and `/`
+        # (`kg* m`, `m /s`), and blank RUNS that mix ASCII blanks with other Unicode blanks in
+        # either order (the lexer must make one token of a run). Judged against the model.
+        ops_alt = {"*": ["* ", "*", " *", " * "], "/": ["/ ", "/", " /", " / "],
+                   " ": [" \u000b", "\u00a0 ", " \u0085", "\t\u2003 ", "  ", "\u000b\t", " \u3000 ", " "]}
+        # A blank AFTER `*` or `/` and any run of blanks where one blank stood keep the reading the
+        # property prescribes ("juxtaposition, `*` and spaces multiply, `/` inverts everything after
+        # it"): those variants carry the specification's expectation. A blank BEFORE an operator
+        # ends the unit expression in the tool (`3 m * 2 s` is a product of two quantities), so
+        # those variants are judged against the model only.
+        safe_alt = {"*": 2, "/": 2, " ": len(ops_alt[" "])}
+        base = [c for c in out if c.tag == "unitexpr"]
+
+        def variant(text):
+            safe, t2 = True, ""
+            for ch in text:
+                if ch in ops_alt:
+                    k = rng.below(len(ops_alt[ch])) if rng.chance(1, 3) else rng.below(safe_alt[ch])
+                    safe = safe and k < safe_alt[ch]
+                    t2 += ops_alt[ch][k]
+                else:
+                    t2 += ch
+            return t2, safe
+
+        for c in base[:: 2 if tier == "quick" else 1]:
+            if not any(ch in c.text for ch in "*/ "):
+                continue
+            for _ in range(2):
+                t2, safe = variant(c.text)
+                if t2 == c.text:
+                    continue
+                out.append(Case("unit " + C.hexs(t2), "unitexpr-layout", t2, expect=c.expect if safe else None))
+                if rng.chance(1, 2):
+                    c2 = Case("query " + C.hexs("3 " + t2), "unitexpr-layout-query", "3 " + t2)
+                    if safe:
+                        c2.expect = ("TIGHT", "3", c.expect)
+                    out.append(c2)
+        for t2, exp in (("kg* m", "KiloGram:1:0,Meter:1:0"), ("kg *m", None), ("m/ s", "Meter:1:0,Second:-1:0"), ("m /s", None), ("m / s", None),
+                        ("N* m", None), ("kg* m/ s^2", "KiloGram:1:0,Meter:1:0,Second:-2:0"), ("kg m/ s^2", "KiloGram:1:0,Meter:1:0,Second:-2:0"),
+                        ("m \u000bs", "Meter:1:0,Second:1:0"), ("m\u00a0 s", "Meter:1:0,Second:1:0"), ("newton \u000bsecond", None),
+                        ("m^ 2", None), ("m ^2", None), ("m ^ 2", None), ("m* s* kg", "KiloGram:1:0,Meter:1:0,Second:1:0"),
+                        ("m/ s/ kg", None), ("1/ s", "Second:-1:0"), ("1 /s", None)):
+            out.append(Case("unit " + C.hexs(t2), "unitexpr-layout", t2, expect=exp))
+            c2 = Case("query " + C.hexs("3 " + t2), "unitexpr-layout-query", "3 " + t2)
+            if exp and not t2[0].isdigit():
+                c2.expect = ("TIGHT", "3", exp)
+            out.append(c2)
+            out.append(Case("query " + C.hexs("3 m to " + t2), "unitexpr-layout-query", "3 m to " + t2))
         # the same unit twice with different prefixes (a Compound holds one prefix per unit, so
         # the tool may refuse; if it accepts, the reading must keep the power of ten between them)
         from fractions import Fraction
